@@ -33,6 +33,13 @@ try:
     rc_clean, out_clean = sh("go test -vet=off -count=1 -timeout 10m -run '%s' ." % "|".join(re.findall(r"func (Test\w+)", open(demo).read())), cwd=wt)
     os.remove(os.path.join(wt, demoname))
     rc, out = sh("git apply %s" % os.path.abspath(patch), cwd=wt)
+    if rc != 0:
+        # written against an earlier HEAD: merge, and keep the rebased change
+        rc, out = sh("git apply -3 %s && git reset -q" % os.path.abspath(patch), cwd=wt)
+        if rc == 0:
+            patch = "/tmp/%s.rebased.diff" % ident
+            open(patch, "w").write(sh("git diff", cwd=wt)[1])
+            meta["rebased"] = True
     meta["applies"] = rc == 0
     if rc != 0:
         print("PATCH DOES NOT APPLY", out); meta["note"] = out[-500:]
